@@ -72,8 +72,8 @@ COMMON = (" Every generated case also carries history and boundary elements wher
           "give the same value, exact special values and values 1e-12..1e-2 away from them, integer / float32 / list-vs-array typing of the same "
           "values (incl. whole-number cells and positions typed as Python ints), and the far ends of the stated domain in size (indices of 100-300, "
           "500 A and needle-shaped cells, shells of tens of thousands of reflections, thousands of parameters, many-cell shifts) in a fixed share of the cases. "
-          "Sensitivity: 280 independently seeded changes (seeded/, 14 per property, written by sub-agents that saw only the property text; 3 obsoleted by a "
-          "later repair, 1 not claimed - DESIGN.md 9.4) and every reverted fix: commit make the quick check exit 1; quiet on the unchanged tree at every "
+          "Sensitivity: 320 independently seeded changes (seeded/, 16 per property, written by sub-agents that saw only the property text; 3 obsoleted by a "
+          "later repair, 9 not claimed because they lie outside the property as stated - DESIGN.md 9.4) and every reverted fix: commit make the quick check exit 1; quiet on the unchanged tree at every "
           "VERIF_SEED tried (0-7, 11-13, 21-24, 31-33, 41-42, 51-52, 61).")
 
 def main():
